@@ -210,13 +210,61 @@ class NodeExtendedKeysWatchOnly:
                                                                           m.index, m.cc, m.key))
 
 
-class Tagged:
+class Text(L.SymVal):
+    """text built by concatenating opaque pieces (tagged callee results, literals): only `+` is understood"""
+    def __init__(self, pieces):
+        out = []
+        for p in pieces:
+            for q in (p.pieces if isinstance(p, Text) else [p]):
+                q = L.simplify_native(q)
+                if isinstance(q, SStr) and q.native() is not None:
+                    q = q.native()
+                if isinstance(q, str) and q == "":
+                    continue
+                if isinstance(q, str) and out and isinstance(out[-1], str):
+                    out[-1] += q
+                else:
+                    out.append(q)
+        self.pieces = out
+
+    def sym_type(self):
+        return str
+
+    def sym_binop(self, ctx, op, other, reflected):
+        import ast as _ast
+        if isinstance(op, _ast.Add):
+            return Text([other, self] if reflected else [self, other])
+        raise Undecided("text used other than by concatenation")
+
+    def __repr__(self):
+        return f"Text({self.pieces})"
+
+
+class Tagged(L.SymVal):
     """opaque result of a summarised callee, tagged with the call it came from"""
     def __init__(self, tag, **kw):
         self.tag, self.kw = tag, kw
 
+    def sym_binop(self, ctx, op, other, reflected):
+        import ast as _ast
+        if isinstance(op, _ast.Add):
+            return Text([other, self] if reflected else [self, other])
+        raise Undecided("tagged value used other than by concatenation")
+
+    def sym_eq(self, other):
+        return other is self
+
+    def sym_truthy(self, ctx):
+        return True
+
     def __repr__(self):
         return f"Tagged({self.tag})"
+
+
+def emitted(eff, channel="stdout"):
+    """everything written to a channel, in order, as one list of pieces (adjacent literals merged): the CONTENT
+    that reaches the channel, however many write()/print() calls produced it"""
+    return Text([x for e in eff if e[0] == channel + ".write" for x in e[1]]).pieces
 
 
 def _tag_summary(tag, names, n_results=1):
@@ -262,7 +310,7 @@ class Generate:
         if not out.returned:
             return
         d = c.deref(out.value).d
-        yield "ensures.top_level_keys", list(d) == ["MASTER", "BIP85", "BIP44", "BIP49", "BIP84"]
+        yield "ensures.top_level_keys", sorted(d) == sorted(["MASTER", "BIP85", "BIP44", "BIP49", "BIP84"])         # (order of a JSON object is not content)
 
         def is_tag(v, tag):
             return isinstance(v, Tagged) and v.tag == tag and v.kw.get("self_") == I.w.ref
@@ -525,7 +573,9 @@ class ExportToFile:
         yield "ensures.one_open_one_write", ok
         if ok:
             oa, okw = eff[0][1], eff[0][2]
-            yield "ensures.opens_the_requested_path_for_writing", len(oa) >= 1 and oa[0] is I.p and (list(oa[1:]) + [okw.get("mode")])[0] in ("w", "wt") and not (set(okw) - {"mode"})
+            # (text encoding / newline / error handling arguments do not change which file is written or what JSON it holds)
+            yield "ensures.opens_the_requested_path_for_writing", len(oa) >= 1 and oa[0] is I.p and (list(oa[1:]) + [okw.get("mode")])[0] in ("w", "wt", "x", "xt") \
+                and not (set(okw) - {"mode", "encoding", "newline", "errors"}) and len(oa) <= 2
             yield "ensures.writes_exactly_the_contents", len(eff[1][1]) == 1 and eff[1][1][0] is I.cts
 
 
@@ -544,6 +594,31 @@ class _OutputChannel:
             c.effects.append(("stderr.write" if self_ is _sys.stderr else "stdout.write", tuple(a), dict(k)))
             return None
         m_write.always = True
+        import builtins as _bi
+        old_print = M.NATIVE_MODELS.get(_bi.print)
+
+        def m_print(c, a, k):
+            if set(k) - {"sep", "end", "file", "flush"}:
+                raise Undecided("print with unmodelled arguments")
+            f_ = k.get("file")
+            ch = "stderr.write" if f_ is _sys.stderr else ("stdout.write" if f_ is None or f_ is _sys.stdout else None)
+            if ch is None:
+                raise Undecided("print to another file")
+            sep, end = k.get("sep", " "), k.get("end", "\n")
+            sep = " " if sep is None else sep
+            end = "\n" if end is None else end
+            pieces = []
+            for i, x in enumerate(a):
+                if i:
+                    pieces.append(sep)
+                if not isinstance(x, (str, Tagged, Text, SStr)):
+                    raise Undecided("print of a non-string")
+                pieces.append(x)
+            pieces.append(end)
+            c.effects.append((ch, (Text(pieces),), {}))
+            return None
+        m_print.always = True
+        M.NATIVE_MODELS[_bi.print] = m_print
 
         def s_export(c, a, k):
             c.effects.append(("export_to_file", tuple(a), dict(k)))
@@ -563,6 +638,10 @@ class _OutputChannel:
                 M.NATIVE_MODELS.pop(key, None)
             else:
                 M.NATIVE_MODELS[key] = old
+            if old_print is None:
+                M.NATIVE_MODELS.pop(_bi.print, None)
+            else:
+                M.NATIVE_MODELS[_bi.print] = old_print
 
     def inputs(self, B):
         if B.concrete:
@@ -606,11 +685,13 @@ class Pprint(_OutputChannel):
         import os as _os
         yield "ensures.returns_none", out.returned and out.value is None
         eff = c.effects
-        ok = [e[0] for e in eff] == ["stdout.write", "stdout.write"] and all(len(e[1]) == 1 and not e[2] for e in eff)
-        yield "ensures.two_writes_to_stdout_and_nothing_else", ok
+        yield "ensures.only_standard_output_is_written", all(e[0] == "stdout.write" for e in eff)
+        txt = emitted(eff)
+        # the CONTENT: json of the given data followed by one line end, however it was written (write/print, 1..n calls)
+        ok = len(txt) == 2 and txt[1] in ("\n", _os.linesep)
+        yield "ensures.stdout_is_one_json_document_and_a_line_end", ok
         if ok:
-            yield "ensures.first_write_is_json_of_the_given_data", self._json_ok(eff[0][1][0], I)
-            yield "ensures.second_write_is_linesep", eff[1][1][0] == _os.linesep
+            yield "ensures.first_write_is_json_of_the_given_data", self._json_ok(txt[0], I)
 
 
 @contract
@@ -627,12 +708,13 @@ class ExportWallet(_OutputChannel):
             # a failed write is reported (the OSError reaches the caller: non-zero exit of the CLI) and no wallet
             # data goes to standard output instead
             yield "raises.write_failure_is_propagated", out.raised_a(OSError)
-            yield "ensures.write_failure_emits_nothing_on_stdout", not any(e[0] == "stdout.write" for e in eff)
+            yield "ensures.write_failure_emits_nothing_on_stdout", not emitted(eff)
             return
         yield "ensures.returns_none", out.returned and out.value is None
-        ok = [e[0] for e in eff] == ["export_to_file"]
-        yield "ensures.one_export_and_nothing_else", ok
+        ok = [e[0] for e in eff if e[0] != "stderr.write"] == ["export_to_file"] and not emitted(eff)
+        yield "ensures.one_export_and_nothing_on_stdout", ok
         if ok:
+            eff = [e for e in eff if e[0] == "export_to_file"]
             names = ["file_path", "contents"]
             kw = dict(zip(names, [a for a in eff[0][1] if not (isinstance(a, Ref) and a == I.w.ref)]))
             kw.update(eff[0][2])
@@ -689,7 +771,7 @@ class Bip85Data:
         for i in range(3):
             want[f"m/83696968'/32'/{i}'"] = ("xprv", dict(index=i))
         keys = [simplify_native(k) if not isinstance(k, SStr) else k.native() for k in d]
-        yield "ensures.labels_exactly", keys == list(want)
+        yield "ensures.labels_exactly", sorted(keys) == sorted(want) and len(keys) == len(set(keys))        # (order of a JSON object is not content)
         for k, v in d.items():
             ks = k.native() if isinstance(k, SStr) else k
             w_ = want.get(ks)
@@ -724,12 +806,13 @@ class ExportWasabi(_OutputChannel):
         eff = c.effects
         if I.export_fails:
             yield "raises.write_failure_is_propagated", out.raised_a(OSError)
-            yield "ensures.write_failure_emits_nothing_on_stdout", not any(e[0] == "stdout.write" for e in eff)
+            yield "ensures.write_failure_emits_nothing_on_stdout", not emitted(eff)
             return
         yield "ensures.returns_none", out.returned and out.value is None
-        ok = [e[0] for e in eff] == ["export_to_file"]
-        yield "ensures.one_export_and_nothing_else", ok
+        ok = [e[0] for e in eff if e[0] != "stderr.write"] == ["export_to_file"] and not emitted(eff)
+        yield "ensures.one_export_and_nothing_on_stdout", ok
         if ok:
+            eff = [e for e in eff if e[0] == "export_to_file"]
             kw = dict(zip(["file_path", "contents"], [a for a in eff[0][1] if not (isinstance(a, Ref) and a == I.w.ref)]))
             kw.update(eff[0][2])
             v = kw.get("contents")
